@@ -16,7 +16,7 @@ var kinds = []string{
 	"p-boot", "p-boot", "p-boot",
 	"p-call", "p-call", "p-call", "p-call", "p-call",
 	"p-pcall", "p-pcall",
-	"p-finish", "p-finish", "p-finish",
+	"p-finish", "p-finish", "p-finish-in-write", "p-finish",
 	"p-release", "p-release", "p-release", "p-release",
 	"p-return", "p-return", "p-return",
 	"p-forward", "p-echo",
